@@ -61,3 +61,16 @@ def replay_b2(rp, mons):
         lines, _ = render.render(run.trace, log_size=rp["spec"].get("log_size", 0), hidden=["clock"], end_t=run.now)
         print("acceptor:", core.run_driver("accept", lines))
     return 1 if bad else 0
+
+
+def l5_fold(ctx, results, label):
+    """tie of the L5 dialogue model: every eligible run must be a run of the model (monitor name "L5run" must have been requested)"""
+    l5 = [(r, r.get("l5") or {"l5": "SKIP", "why": "no verdict"}) for r in results]
+    for _, v in l5:
+        ctx.count("l5:" + v["l5"] + (":" + str(v.get("why")) if v["l5"] == "SKIP" else ""))
+    ctx.cov["l5_runs_accepted_by_dialogue_model"] = ctx.cov.get("l5_runs_accepted_by_dialogue_model", 0) + sum(1 for _, v in l5 if v["l5"] == "ACCEPT")
+    rej = [(r, v) for r, v in l5 if v["l5"] == "REJECT"]
+    ctx.cov["l5_runs_rejected_by_dialogue_model"] = ctx.cov.get("l5_runs_rejected_by_dialogue_model", 0) + len(rej)
+    if rej and not ctx.violations:
+        r, v = rej[0]
+        ctx.correspondence_broken(f"L5 dialogue model: a real {label} run is not a run of the model", {"count": len(rej), "first": {"seed": r["seed"], "preempt": r["preempt"], "verdict": v}})
